@@ -5,6 +5,7 @@ EXTENDS Sources, Json
 CONSTANTS Focus,     \* keys that the sources may touch (a subset of the keys of the shape)
           NDcf,      \* number of default config files
           MaxArgv,   \* command line items: 0..MaxArgv
+          Repeat,    \* TRUE: also listings in which the first default config file is listed AGAIN after the second
           Emit
 
 KeySeq == <<"a", "l", "d", "g.x", "g.y", "s", "n", "my-list", "g.my-list">>
@@ -41,6 +42,11 @@ AllArgv == UNION {ArgvSeqs(n, 1) : n \in 0..MaxArgv}
 
 RECURSIVE DcfSeqs(_)
 DcfSeqs(i) == IF i > NDcf THEN {<< >>} ELSE {<<c>> \o r : c \in CfgAsgs(i), r \in DcfSeqs(i + 1)}
+\* default_config_files is a LIST of patterns, expanded one by one (_get_default_config_files:980-982): a file that is
+\* listed twice, or matched by two patterns, appears twice in the expansion and is applied twice -- the documented fold
+\* over the list as given.  Such listings: first file, second file, the first file again.
+DcfRepeats == IF Repeat THEN {<<c1, c2, c1>> : c1 \in CfgAsgs(1) \ {<< >>}, c2 \in CfgAsgs(2) \ {<< >>}} ELSE {}
+AllDcf == DcfSeqs(1) \cup DcfRepeats
 
 EnvChoices == {[env |-> FALSE, envc |-> << >>, envv |-> << >>]}
               \cup {[env |-> TRUE, envc |-> c, envv |-> v] : c \in CfgAsgs(5), v \in EnvFrom(1, 6)}
@@ -54,7 +60,7 @@ Source(d, e, c) == [defaults |-> Defaults, dcf |-> d, env |-> e.env \/ c.method 
 VARIABLES s, pc, cfg, pos
 vars == <<s, pc, cfg, pos>>
 
-Init == /\ \E d \in DcfSeqs(1), e \in EnvChoices, c \in Calls :
+Init == /\ \E d \in AllDcf, e \in EnvChoices, c \in Calls :
              /\ (c.method = "env" => e.env)
              /\ s = Source(d, e, c)
         /\ pc = "base" /\ cfg = FullNS(Defaults) /\ pos = 1
